@@ -106,7 +106,8 @@ Print Assumptions release_faults.
    OSError scripted, st = None <-> no object records a descriptor, every thread lock free,
    counters 0, kernel lock free; st = Some (o,t,d) <-> o records the descriptor that holds
    the kernel lock, thread-lock owner t, counter = RLock depth = d >= 1 (d = 1 unless
-   reentrant), every other object pristine. *)
+   reentrant), every other object pristine; and no descriptor is open except the one
+   that holds the lock (nfds = 1 while held, 0 otherwise: nothing leaks). *)
 
 (* From the initial state of the correspondence runs (Case_C12.init_seq: any number of
    threads and objects, reentrant or not, any constructor timeouts), for every
@@ -126,7 +127,8 @@ Theorem refines_rlock_spec :
     fst conc = fst spec /\
     (no_block (fst spec) = true ->
        Rq reent dflt (snd conc) (snd spec) /\
-       forall o, is_locked (snd conc) o = spec_is_locked (snd spec) o).
+       (forall o, is_locked (snd conc) o = spec_is_locked (snd spec) o) /\
+       nfds (snd conc) = match snd spec with Some _ => 1 | None => 0 end).
 Proof. exact refines_rlock_spec_lemma. Qed.
 Print Assumptions refines_rlock_spec.
 
